@@ -1,7 +1,7 @@
 #!/bin/bash
 # run_all.sh [quick|thorough] : every registered check on /repo as it is; one summary line each
 tier=${1:-quick}
-cd /verif
+cd "$(dirname "$0")/.."
 rc=0
 for id in C01 C02 C03 C04 C05 C06 C07 C08 C09 C10 C11 C12 C13 C14 C15 C16 C17 C18 C19 C20; do
   bin/verif check $id --tier $tier 2>&1 | grep -E "^VIOLATION|^KNOWN-FINDING|^\[" || true
